@@ -533,6 +533,9 @@ func genCmd(r *gen.Rand, d *meta2.Data) Cmd {
 		if r.Chance(1, 8) {
 			c.U1 = 2 // replicated database (replication groups are created with its partition view)
 		}
+		if r.Chance(1, 10) {
+			c.X = "skitype" // a database-level sharding type without shard keys
+		}
 		if r.Chance(3, 4) {
 			c.HasRP, c.RP, c.D, c.SGD = true, r.Range(1, 3), i64(0), i64(gen.Pick(r, sgd))
 		} else {
@@ -811,12 +814,38 @@ func buildCmd(c *Cmd, scratch *meta2.Data) []byte {
 		pc = metacmd.MkCmd(proto2.Command_RecoverMetaData, proto2.E_RecoverMetaDataCommand_Command, v)
 	} else {
 		pc = metacmd.Build(c)
+		enrich(c, pc)
 	}
 	b, err := proto.Marshal(pc)
 	if err != nil {
 		panic(err)
 	}
 	return b
+}
+
+// enrich: argument shapes the shared command builder (internal/metacmd) does not produce
+func enrich(c *Cmd, pc *proto2.Command) {
+	ps := func(x string) *string { return &x }
+	switch {
+	case c.K == "cdb" && c.X == "skitype":
+		// a database-level sharding type without shard keys
+		ext, _ := proto.GetExtension(pc, proto2.E_CreateDatabaseCommand_Command)
+		ext.(*proto2.CreateDatabaseCommand).Ski = &proto2.ShardKeyInfo{Type: ps(meta2.HASH)}
+	case c.K == "cmst" && c.X == "rich":
+		// a column-store measurement with index relation, options, and a fixed number of shards
+		ext, _ := proto.GetExtension(pc, proto2.E_CreateMeasurementCommand_Command)
+		v := ext.(*proto2.CreateMeasurementCommand)
+		u32, i32, i64p, bp := func(x uint32) *uint32 { return &x }, func(x int32) *int32 { return &x }, func(x int64) *int64 { return &x }, func(x bool) *bool { return &x }
+		v.EngineType = u32(1)
+		v.InitNumOfShards = i32(2)
+		v.SchemaInfo = []*proto2.FieldSchema{{FieldName: ps("tk1"), FieldType: i32(6)}, {FieldName: ps("f1"), FieldType: i32(3)}}
+		v.IR = &proto2.IndexRelation{Rid: u32(1), Oid: []uint32{4}, IndexName: []string{"bloomfilter"}, IndexLists: []*proto2.IndexList{{IList: []string{"f1"}}},
+			IndexOptions: []*proto2.IndexOptions{{Infos: []*proto2.IndexOption{{Tokens: ps(","), Tokenizers: ps("standard"), TimeClusterDuration: i64p(60)}}}}}
+		v.ColStoreInfo = &proto2.ColStoreInfo{PrimaryKey: []string{"tk1"}, SortKey: []string{"tk1"}, PropertyKey: []string{"k"}, PropertyValue: []string{"v"},
+			TimeClusterDuration: i64p(int64(time.Minute)), CompactionType: i32(1)}
+		v.Options = &proto2.Options{CaseInSensitive: bp(true), AppendMeta: bp(true), WriteThreshold: i32(3), ReadThreshold: i32(4), StorageCapacity: i32(5),
+			SplitChar: ps(","), Ttl: i64p(int64(Hour)), TagsSplit: ps(";")}
+	}
 }
 
 func genCase(r *gen.Rand, idx int) *Case {
@@ -884,11 +913,7 @@ func scripted(name string, ptper, snapAt, delay int, cmds []Cmd) *Case {
 func scriptedC(name string, cf Conf, ptper, snapAt, delay int, cmds []Cmd) *Case {
 	cs := &Case{Name: name, Conf: cf, PtPer: ptper, SnapAt: snapAt, Delay: delay, Cmds: cmds}
 	for i := range cmds {
-		b, err := proto.Marshal(metacmd.Build(&cmds[i]))
-		if err != nil {
-			panic(err)
-		}
-		cs.Log = append(cs.Log, base64.StdEncoding.EncodeToString(b))
+		cs.Log = append(cs.Log, base64.StdEncoding.EncodeToString(buildCmd(&cmds[i], nil)))
 	}
 	runCase(cs)
 	return cs
@@ -967,6 +992,10 @@ func corpus() []*Case {
 			{K: "uptinfo", DB: 1, Pt: 0, COwner: 1, CStat: 3, Owner: 1, Status: 1}, {K: "ptver", DB: 1, Pt: 1},
 			{K: "cuser", S1: "u2", S2: "h"},
 		}),
+		// a database-level sharding type without shard keys must survive the snapshot
+		scripted("database-sharding-type-without-keys", 1, 2, 0, []Cmd{
+			{K: "cnode", H: 1, T: 1}, {K: "cdb", DB: 1, HasRP: true, RP: 1, D: i64(0), SGD: i64(Hour), X: "skitype"}, {K: "cuser", S1: "u1", S2: "h"},
+		}),
 		scripted("delayed-persist-subscriptions", 1, 5, 2, []Cmd{
 			{K: "cnode", H: 1, T: 1}, {K: "cdb", DB: 1, HasRP: true, RP: 1, D: i64(0), SGD: i64(Hour)},
 			{K: "csub", DB: 1, RP: 1, S1: "sub0", S2: "ALL", H: 1}, {K: "csub", DB: 1, RP: 1, S1: "sub1", S2: "ALL", H: 2},
@@ -1026,6 +1055,10 @@ func main() {
 		}
 		sort.Strings(kinds)
 		_ = enc.Encode(map[string]any{"refl_fields": reflFields(), "dump_skip": sk, "registered_commands": kinds})
+		return
+	}
+	if len(os.Args) > 1 && os.Args[1] == "values" {
+		_ = enc.Encode(valuesMode())
 		return
 	}
 	if len(os.Args) > 1 && os.Args[1] == "model" {
